@@ -19,6 +19,7 @@ DISPATCH = {
     "C03": ("harness.props.g1", "run"),
     "C05": ("harness.props.g1", "run"),
     "C09": ("harness.props.g1", "run"),
+    "C11": ("harness.props.c11", "run"),
 }
 
 
